@@ -417,16 +417,17 @@ def cexBatch : World :=
     env := { events := [{ uid := 0, time := 100, prio := 28, weight := 0, asset := 2, act := 19 }],
              nextUid := 1 } }
 
-/-- **Outside S1 the property is false: empty batches.**  Unblocking the input of a FULL buffer
-notifies nobody (a full buffer does not forward `notify_upstream_of_available_space`), but a full
-buffer accepts an empty batch (it has no parts).  Before the script `Wake` holds; afterwards the
-clock is about to advance (to 100), the source holds a ready part that the buffer would accept
-(`givePart` answers `true`) and no attempt is queued. -/
-theorem no_lost_wakeup_false_empty_batch :
+/-- **Empty batches (finding F12, repaired).**  Unblocking the input of a FULL buffer notifies
+nobody (a full buffer does not forward `notify_upstream_of_available_space`).  Before the repair a
+full buffer still accepted an empty batch (it has no parts), so this state lost a wake-up: the clock
+was about to advance (to 100), the source held a ready empty batch that the buffer would have
+accepted, and no attempt was queued.  Since the repair a full buffer refuses every offer
+(`canAcceptBasic`: `level < cap`), so the same state is quiescent: the part is genuinely blocked. -/
+theorem empty_batch_full_buffer_quiescent :
     Wake cexBatch ∧ ClockAdvances (cexBatch.exec (.script 0)) ∧
     ready (cexBatch.exec (.script 0)) 0 1 ∧
-    ((cexBatch.exec (.script 0)).givePart 1 1).2 = true ∧
-    ¬ Quiescent (cexBatch.exec (.script 0)) ∧ ¬ Wake (cexBatch.exec (.script 0)) := by decide
+    ((cexBatch.exec (.script 0)).givePart 1 1).2 = false ∧
+    Quiescent (cexBatch.exec (.script 0)) ∧ Wake (cexBatch.exec (.script 0)) := by decide
 
 end C03W
 end SimProc
